@@ -70,8 +70,26 @@ mod h {
     }
     @OFFS@
     @LAYOUT@
+    @POOL@
 }
 '''
+
+POOL = r'''
+    /// constant pooling: two entries may share one data-section slot (Entry::equiv) only if they have the same LAYOUT --
+    /// equal element values do not imply equal bytes: paddings differ between arrays, structs and enums.
+    /// (Stated on equiv itself; calling to_bytes on both sides does not finish in CBMC: iterator chains over heap Vecs.)
+    #[kani::proof] #[kani::unwind(4)]
+    fn pool_@NAME@() {
+        let (x, y): (u8, u8) = (kani::any(), kani::any());
+        let present = @PRESENT@;
+        let new = @NEW@;
+        let merged = present.equiv(&new);
+        kani::cover!(true);
+        assert!(merged == @SAME@, "OB: constants with different layouts (paddings) are pooled into one data-section entry, or identical ones are not");
+        std::mem::forget(present); std::mem::forget(new);
+    }
+'''
+
 
 OFFS = r'''
     /// patching the configurables offset writes exactly bytes [16, 24) and nothing else
@@ -151,15 +169,31 @@ def build(tier):
         obs.append(vf.Ob("set_offset_len%d" % L, "C13", complete=False, bound="bytecode of exactly %d bytes, symbolic content" % L, panic_prop="C17",
                          what="set_bytecode_configurables_offset writes bytes [16,24) and leaves every other byte unchanged"))
     NC, CF = "EntryName::NonConfigurable", 'EntryName::Configurable(String::new())'
-    insts = [("w_b", [word(NC), byte(NC)], [word(CF)]), ("a3_w", [arr(3, NC)], [byte(CF), word(CF)])]
-    if tier == "thorough":
-        insts += [("a9_a8", [arr(9, NC), arr(8, NC)], [arr(1, CF)]), ("b_a7pad16", [byte(NC)], [arr(7, CF, 16), word(CF)])]
+    # DEMOTED (DESIGN 5): the collection-level layout obligations (serialize_to_bytes vs absolute_idx_to_offset on 3-entry
+    # sections) did not finish in 900 s / 5.5 GB each -- iterator chains over heap Vecs; they are not generated any more.
+    insts = []
     lay = ""
     for name, nc, cf in insts:
         lay += LAYOUT.replace("@NAME@", name).replace("@NC@", ", ".join(nc)).replace("@CF@", ", ".join(cf))
         obs.append(vf.Ob("layout_%s" % name, "C13", complete=False, bound="one concrete shape of the data section (%s), symbolic contents" % name, panic_prop="C17",
                          what="serialize_to_bytes places every entry at absolute_idx_to_offset(i), gaps zero, total length = offset(n)"))
-    src = src.replace("@OFFS@", offs).replace("@LAYOUT@", lay)
+    def b(v, pad):
+        return "Entry { value: Datum::Byte(%s), padding: Padding::%s, name: EntryName::NonConfigurable }" % (v, pad)
+    def coll(elems, size):
+        return "Entry { value: Datum::Collection(vec![%s]), padding: Padding::Right { target_size: %d }, name: EntryName::NonConfigurable }" % (", ".join(elems), size)
+    R1, R8, L8 = "Right { target_size: 1 }", "Right { target_size: 8 }", "Left { target_size: 8 }"
+    pools = [("array_vs_struct", coll([b("x", R1), b("y", R1)], 2), coll([b("x", R8), b("y", R8)], 16), "false"),
+             ("struct_vs_array", coll([b("x", R8), b("y", R8)], 16), coll([b("x", R1), b("y", R1)], 2), "false"),
+             ("byte_vs_padded_byte", b("x", R1), b("x", L8), "false"),
+             ("outer_padding", coll([b("x", R1), b("y", R1)], 2), coll([b("x", R1), b("y", R1)], 8), "false"),
+             ("same_layout", coll([b("x", R8), b("y", R8)], 16), coll([b("x", R8), b("y", R8)], 16), "true"),
+             ("different_values", coll([b("x", R8), b("y", R8)], 16), coll([b("y", R8), b("x", R8)], 16), "(x == y)")]
+    pool = ""
+    for name, present, new, same in pools:
+        pool += POOL.replace("@NAME@", name).replace("@PRESENT@", present).replace("@NEW@", new).replace("@SAME@", same)
+        obs.append(vf.Ob("pool_%s" % name, "C01", complete=False, bound="one concrete pair of shapes (%s), symbolic element values" % name, panic_prop="C17",
+                         what="Entry::equiv (the pooling test of DataSection::insert_data_value) holds exactly when values AND paddings agree at every level"))
+    src = src.replace("@OFFS@", offs).replace("@LAYOUT@", lay).replace("@POOL@", pool)
     u = vf.KaniUnit("c13_layout", {"src/lib.rs": src}, obs, timeout_s=900, jobs=4, auto_files=[DS, "sway-core/src/lib.rs"])
     u.fragments = [vf.frag_record(fr[k]) for k in fr]
     u.rewrites = [{"rule": "R1", "before": "serde derives on Entry/Datum/EntryName/Padding", "after": "plain derives", "times": 5}]
